@@ -51,10 +51,13 @@ def _to_ndarray(data):
         return raw
 
     converted = [data[name] for name in names]
-    if all(col.dtype == raw.dtype[name] for col, name in zip(converted, names)):
+    if all(col.dtype == raw.dtype[name].base for col, name in zip(converted, names)):
         return raw
 
-    out = np.zeros(raw.shape, dtype=[(name, col.dtype) for col, name in zip(converted, names)])
+    # Columns may hold several elements per row (e.g. the 1024-element rows
+    # of standard healpix files); keep that shape.
+    out = np.zeros(raw.shape, dtype=[(name, col.dtype, col.shape[1:])
+                                     for col, name in zip(converted, names)])
     for col, name in zip(converted, names):
         out[name] = col
 
